@@ -173,3 +173,31 @@ def rand_state(rng, valid=True) -> BrokerState:
 def gen_AddOrEnqueue(rng):
     ws = rand_worker_state(rng, "alpha", valid=rng.random() < 0.9)
     return dict(event=rand_attempt(rng), step_name="alpha", state=ws, now_seconds=rand_float(rng, False))
+
+
+def rand_add_tick(rng, state=None):
+    ev = rand_event(rng)
+    target = None
+    if state is not None and rng.random() < 0.3:
+        target = rng.choice(list(state.workers) + ["nope"])
+    return TickAddEvent(
+        event=ev, step_name=target, attempts=rng.choice([None, 0, 2]), first_attempt_at=rand_float(rng),
+        last_exception=rng.choice([None, rand_exc(rng)]), last_failed_at=rand_float(rng),
+        recovery_counts=rand_counts(rng),
+    )
+
+
+def gen_CheckIdle(rng):
+    return dict(state=rand_state(rng))
+
+
+def gen_CancelTick(rng):
+    return dict(tick=TickCancelRun(), init=rand_state(rng))
+
+
+def gen_PublishTick(rng):
+    return dict(tick=TickPublishEvent(event=rand_event(rng)), init=rand_state(rng))
+
+
+def gen_TimeoutTick(rng):
+    return dict(tick=TickTimeout(timeout=rng.choice([1.0, 10.0])), init=rand_state(rng))
